@@ -102,22 +102,19 @@ theorem clone_closed (cfg : Cfg) (hd : cfg.deepClone = true) (hk : cfg.keepAllTy
   exact ⟨c, wfB_of_wfs w⟩
 
 /-- … and it exists as soon as there is fuel for two rounds -/
-theorem clone_total (cfg : Cfg) (hd : cfg.deepClone = true) (hk : cfg.keepAllTypes = true) (hacc : cfg.accumulateBusted = true)
-    (s : Schema) (h : Heap) (hc : closedB h s = true) (hw : wfB h s = true) (fuel : Nat) : (clone cfg (2 + fuel) s h).isSome = true := by
-  -- `clone` only fails when `healLoop` runs out of fuel; its start state is well-formed (as in `clone_closed_wfs`)
-  cases e : clone cfg (2 + fuel) s h with
-  | some r => rfl
-  | none =>
-    exfalso
-    simp only [clone] at e
-    split at e
-    · rename_i hnone
-      simp only [replaceTD] at hnone
-      split at hnone
-      · -- busted: healLoop on the start state; it is well-formed, so two rounds suffice
-        sorry
-      · cases hnone
-    · cases e
+theorem clone_total (cfg : Cfg) (hd : cfg.deepClone = true) (s : Schema) (h : Heap) (hc : closedB h s = true) (hw : wfB h s = true)
+    (fuel : Nat) : (clone cfg (2 + fuel) s h).isSome = true := by
+  have w0 := clone_start_wfs cfg hd s h hc (wfs_of_closedB hc hw)
+  have h2 := healLoop_two cfg _ _ w0
+  have hex : ∃ r, replaceTD cfg (2 + fuel) { types := cloneRegistry cfg s h, dirs := [], query := s.query, mutation := s.mutation, subscription := s.subscription, dres := none } (cloneDirs cfg (cloneTypes cfg h s.types).1 s.dirs).1 (cloneTypes cfg h s.types).2 (cloneDirs cfg (cloneTypes cfg h s.types).1 s.dirs).2 = some r := by
+    simp only [replaceTD]
+    split
+    · obtain ⟨r, e2⟩ := Option.isSome_iff_exists.mp h2
+      exact ⟨r, healLoop_fuel_ge cfg 2 _ _ r e2 fuel⟩
+    · exact ⟨_, rfl⟩
+  obtain ⟨r, hr⟩ := hex
+  simp only [clone, hr]
+  rfl
 
 /-- FULL `transform_closed`: `transform_schema(source, *visitors)` of a closed well-formed source — clone, then any list of
     heal / visibility / camel-case / drop-wrap visitors with arbitrary predicates and renamings — is closed and well-formed -/
@@ -133,6 +130,15 @@ theorem transform_closed (cfg : Cfg) (hd : cfg.deepClone = true) (hk : cfg.keepA
     obtain ⟨h2, s2, e2, c2, w2⟩ := visitors_closed cfg hacc fuel vs s1 h1 c1 w1
     rw [e2] at e; cases e
     exact ⟨c2, w2⟩
+
+/-- FULL, with termination: fuel for two rounds is always enough for `transform_schema` on a closed well-formed source -/
+theorem transform_closed_total (cfg : Cfg) (hd : cfg.deepClone = true) (hk : cfg.keepAllTypes = true) (hacc : cfg.accumulateBusted = true)
+    (vs : List Visitor) (s : Schema) (h : Heap) (hc : closedB h s = true) (hw : wfB h s = true) (fuel : Nat) :
+    ∃ h' s', transform cfg (2 + fuel) vs s h = some (h', s') ∧ closedB h' s' = true ∧ wfB h' s' = true := by
+  obtain ⟨⟨h1, s1⟩, e1⟩ := Option.isSome_iff_exists.mp (clone_total cfg hd s h hc hw fuel)
+  obtain ⟨c1, w1⟩ := clone_closed cfg hd hk hacc (2 + fuel) s h h1 s1 hc hw e1
+  obtain ⟨h2, s2, e2, c2, w2⟩ := visitors_closed cfg hacc fuel vs s1 h1 c1 w1
+  exact ⟨h2, s2, by simp only [transform, e1]; exact e2, c2, w2⟩
 
 /-- the working tree's variant -/
 theorem current_transform_closed (hd : PyGql.Generated.HeapCfg.currentCfg.deepClone = true)
